@@ -79,7 +79,8 @@ class _Canonical(ast.NodeTransformer):
     (h) `if c: return X` followed by a `raise` that ends the block -> `if not c: raise ...` followed by `return X` (the refusal
         is the guard, the result is the fall-through);
     (i) `while True:` whose first statement is the guard `if c: raise ... / return X` (no `break` of that loop, no `else`)
-        -> `while not c: REST` followed by the raise / return."""
+        -> `while not c: REST` followed by the raise / return;
+    (j) `cast(T, e)` -> `e` (typing.cast is the identity at run time)."""
 
     _OPS = (ast.Add, ast.Sub, ast.Mult, ast.BitOr, ast.BitAnd, ast.FloorDiv)
 
@@ -149,6 +150,17 @@ class _Canonical(ast.NodeTransformer):
             e.values = [self._nnf(v, boolctx) for v in e.values]
             return e
         return e
+
+    def visit_Call(self, n: ast.Call) -> Any:
+        self.generic_visit(n)
+        # (j) `cast(T, e)` is `e` at run time; the value keeps the position of the cast (where the oracle knows it as a T)
+        if isinstance(n.func, ast.Name) and n.func.id == 'cast' and len(n.args) == 2 and not n.keywords and isinstance(n.args[1], (ast.Name, ast.Attribute, ast.Subscript)):
+            self.rewrites += 1
+            import copy as _copy
+
+            inner = _copy.copy(n.args[1])
+            return ast.copy_location(inner, n)
+        return n
 
     def visit_UnaryOp(self, n: ast.UnaryOp) -> Any:
         self.generic_visit(n)
